@@ -57,6 +57,9 @@ Qed.
 Theorem dump_hrel r h h' : Forall2 hrel h h' -> dump (with_hdr r h) = dump (with_hdr r h').
 Proof.
   intros H. unfold dump. change (r_hdr (with_hdr r h)) with h. change (r_hdr (with_hdr r h')) with h'.
+  change (r_body (with_hdr r h)) with (r_body r). change (r_body (with_hdr r h')) with (r_body r).
+  change (r_bend (with_hdr r h)) with (r_bend r). change (r_bend (with_hdr r h')) with (r_bend r).
+  change (dump_head (with_hdr r h)) with (dump_head r). change (dump_head (with_hdr r h')) with (dump_head r).
   now rewrite (renders_rel _ _ (sort_rel _ _ H)).
 Qed.
 
@@ -69,10 +72,10 @@ Theorem dump_noninterference k v v' r : is_redacted k = true ->
 Proof.
   intros Hk. unfold set_header.
   change (mkReq (r_method r) (r_requri r) (r_major r) (r_minor r) (r_host r)
-            ((k, [v]) :: filter (fun e => negb (beq (fst e) k)) (r_hdr r)) (r_body r))
+            ((k, [v]) :: filter (fun e => negb (beq (fst e) k)) (r_hdr r)) (r_body r) (r_bend r))
     with (with_hdr r ((k, [v]) :: filter (fun e => negb (beq (fst e) k)) (r_hdr r))).
   change (mkReq (r_method r) (r_requri r) (r_major r) (r_minor r) (r_host r)
-            ((k, [v']) :: filter (fun e => negb (beq (fst e) k)) (r_hdr r)) (r_body r))
+            ((k, [v']) :: filter (fun e => negb (beq (fst e) k)) (r_hdr r)) (r_body r) (r_bend r))
     with (with_hdr r ((k, [v']) :: filter (fun e => negb (beq (fst e) k)) (r_hdr r))).
   apply dump_hrel. constructor; [|apply Forall2_hrel_refl].
   split; [reflexivity|]. cbn [fst snd]. now rewrite Hk.
@@ -87,12 +90,66 @@ Proof.
 Qed.
 
 (* a header that is not in the set is dumped verbatim (so the set is what protects) *)
-Theorem dump_shows_other k v r : is_redacted k = false -> r_hdr r = [(k, [v])] ->
+Theorem dump_shows_other k v r : body_fails r = false -> is_redacted k = false -> r_hdr r = [(k, [v])] ->
   dump r = dump_head r ++ (k ++ [58; 32] ++ v ++ crlf) ++ dump_tail r.
 Proof.
-  intros Hk Hh. unfold dump. rewrite Hh. cbn [sort_hdr fold_right ins flat_map]. unfold render. cbn [fst snd flat_map].
+  intros Hb Hk Hh. unfold dump, dump_tail. unfold body_fails in Hb.
+  destruct (peek (r_body r) (r_bend r)) as [p|]; [|discriminate].
+  rewrite Hh. cbn [sort_hdr fold_right ins flat_map]. unfold render. cbn [fst snd flat_map].
   rewrite Hk. now rewrite !app_nil_r.
 Qed.
+
+(* ------------------------------------------------------------------ the body reader *)
+
+(* a request whose body cannot be read is not dumped at all: not its headers, not its request line *)
+Theorem dump_failed_body r : body_fails r = true -> dump r = [].
+Proof.
+  unfold body_fails, dump. destruct (peek (r_body r) (r_bend r)); [discriminate|reflexivity].
+Qed.
+
+Theorem dump_readable_body r : body_fails r = false ->
+  dump r = dump_head r ++ flat_map render (sort_hdr (r_hdr r)) ++ dump_tail r.
+Proof.
+  unfold body_fails, dump, dump_tail. destruct (peek (r_body r) (r_bend r)); [reflexivity|discriminate].
+Qed.
+
+(* which readers fail: a non-EOF error before max_body+1 bytes went through the LimitReader, or together
+   with byte number max_body+1 *)
+Theorem body_fails_iff r : body_fails r = true <->
+  (r_bend r = EndErr /\ Z.of_nat (length (r_body r)) < peek_limit) \/
+  (r_bend r = EndErrWithLast /\ Z.of_nat (length (r_body r)) <= peek_limit).
+Proof.
+  unfold body_fails, peek. destruct (r_bend r).
+  - split; [discriminate|]. intros [[H _]|[H _]]; discriminate.
+  - destruct (Z.ltb_spec (Z.of_nat (length (r_body r))) peek_limit) as [Hl|Hl].
+    + split; [intros _; left; split; [reflexivity|exact Hl]|reflexivity].
+    + split; [discriminate|]. intros [[_ H]|[H _]]; [lia|discriminate].
+  - destruct (Z.leb_spec (Z.of_nat (length (r_body r))) peek_limit) as [Hl|Hl].
+    + split; [intros _; right; split; [reflexivity|exact Hl]|reflexivity].
+    + split; [discriminate|]. intros [[H _]|[_ H]]; [discriminate|lia].
+Qed.
+
+(* an error the body would return after the first max_body+1 bytes is never seen: the dump does not
+   depend on how such a stream ends *)
+Theorem dump_error_past_cap m u j n h hd b e e' : peek_limit < Z.of_nat (length b) ->
+  dump (mkReq m u j n h hd b e) = dump (mkReq m u j n h hd b e').
+Proof.
+  intros Hl. unfold dump, dump_head. cbn [r_body r_bend r_hdr r_method r_requri r_major r_minor r_host].
+  assert (Hp : forall x, peek b x = Some (firstn (Z.to_nat peek_limit) b)).
+  { intros x. unfold peek. destruct x; [reflexivity| |].
+    - destruct (Z.ltb_spec (Z.of_nat (length b)) peek_limit); [lia|reflexivity].
+    - destruct (Z.leb_spec (Z.of_nat (length b)) peek_limit); [lia|reflexivity]. }
+  now rewrite !Hp.
+Qed.
+
+(* the line handlerLogger writes for the request *)
+Theorem log_noninterference addr k v v' r : is_redacted k = true ->
+  log_request addr (set_header k v r) = log_request addr (set_header k v' r).
+Proof. intros Hk. unfold log_request. now rewrite (dump_noninterference k v v' r Hk). Qed.
+
+Theorem log_values_hidden addr k vs vs' r rest : is_redacted k = true -> length vs = length vs' ->
+  log_request addr (with_hdr r ((k, vs) :: rest)) = log_request addr (with_hdr r ((k, vs') :: rest)).
+Proof. intros Hk Hl. unfold log_request. now rewrite (dump_values_hidden k vs vs' r rest Hk Hl). Qed.
 
 (* ------------------------------------------------------------------ header name canonicalisation *)
 
